@@ -1,0 +1,62 @@
+// Verification hooks for the num_bigint backend (only with --cfg strand_verif):
+// raw constructors/accessors and a parameter set read from a run-time registry.
+use super::*;
+
+pub fn element_raw<P: BigintCtxParams>(value: BigUint) -> BigUintE<P> {
+    BigUintE::new(value)
+}
+pub fn exponent_raw<P: BigintCtxParams>(value: BigUint) -> BigUintX<P> {
+    BigUintX::new(value)
+}
+pub fn element_value<P: BigintCtxParams>(e: &BigUintE<P>) -> &BigUint {
+    &e.0
+}
+pub fn exponent_value<P: BigintCtxParams>(x: &BigUintX<P>) -> &BigUint {
+    &x.0
+}
+pub fn plaintext_raw(value: BigUint) -> BigUintP {
+    BigUintP(value)
+}
+pub fn plaintext_value(p: &BigUintP) -> &BigUint {
+    &p.0
+}
+pub fn hash_to_element<P: BigintCtxParams>(
+    ctx: &BigintCtx<P>,
+    bytes: &[u8],
+) -> BigUint {
+    ctx.hash_to_element(bytes)
+}
+
+/// Parameter set taken from `verif_hooks::PVERIF` at construction time.
+#[derive(Eq, PartialEq, Clone, Debug)]
+pub struct PVerif {
+    generator: BigUintE<Self>,
+    modulus: BigUintE<Self>,
+    exp_modulus: BigUintX<Self>,
+    co_factor: BigUint,
+}
+impl BigintCtxParams for PVerif {
+    fn generator(&self) -> &BigUintE<Self> {
+        &self.generator
+    }
+    fn modulus(&self) -> &BigUintE<Self> {
+        &self.modulus
+    }
+    fn exp_modulus(&self) -> &BigUintX<Self> {
+        &self.exp_modulus
+    }
+    fn co_factor(&self) -> &BigUint {
+        &self.co_factor
+    }
+    fn new() -> PVerif {
+        let (p, q, g, c) = crate::verif_hooks::get_pverif();
+        PVerif {
+            generator: BigUintE::new(BigUint::from_str_radix(&g, 10).unwrap()),
+            modulus: BigUintE::new(BigUint::from_str_radix(&p, 10).unwrap()),
+            exp_modulus: BigUintX::new(
+                BigUint::from_str_radix(&q, 10).unwrap(),
+            ),
+            co_factor: BigUint::from_str_radix(&c, 10).unwrap(),
+        }
+    }
+}
